@@ -273,6 +273,40 @@ ex:V2 a sh:NodeShape ; sh:targetSubjectsOf ex:linked ; sh:property [ sh:path ex:
                     got_rules = ("err", enc.exn_name(e))
                 if got_rules != base_rules:
                     diffs.append((cr, "shacl_rules() over a %s holding the same triples derives other triples than over the plain Graph (options %r)" % (kind, ro), base, base, sorted("%s | %s" % (cx, " ".join(x.n3() for x in t)) for cx, t in qx)))
+    # (d) "ontology axioms added": for an ontology that consists of RDFS/OWL axioms only (class and property declarations, subclass /
+    # domain / range / inverse / equivalence axioms, named and anonymous restrictions with their owl:onProperty, owl:hasValue,
+    # owl:someValuesFrom, owl:allValuesFrom, cardinalities, enumerations) the mix-in of the ontology into an empty data graph is the ontology
+    from rdflib.compare import isomorphic as _iso
+    TBOX_TTL = """@prefix ex: <http://ex.org/> . @prefix owl: <http://www.w3.org/2002/07/owl#> . @prefix rdfs: <http://www.w3.org/2000/01/rdf-schema#> . @prefix xsd: <http://www.w3.org/2001/XMLSchema#> .
+%s"""
+    TBOX_AXIOMS = ["ex:C0 a owl:Class ; rdfs:subClassOf ex:C1 .", "ex:C1 a rdfs:Class .", "ex:p a owl:ObjectProperty ; rdfs:domain ex:C1 ; rdfs:range ex:C2 .", "ex:q a owl:DatatypeProperty ; rdfs:subPropertyOf ex:r .",
+                   "ex:p owl:inverseOf ex:pinv . ex:pinv a owl:ObjectProperty .", "ex:C1 owl:equivalentClass ex:C3 . ex:C3 a owl:Class .", "ex:RedThing a owl:Restriction ; owl:onProperty ex:colour ; owl:hasValue ex:red .",
+                   "ex:C2 rdfs:subClassOf [ a owl:Restriction ; owl:onProperty ex:p ; owl:someValuesFrom ex:C0 ] .", "ex:Parent a owl:Restriction ; owl:onProperty ex:child ; owl:minCardinality \"1\"^^xsd:nonNegativeInteger .",
+                   "ex:OnlyC a owl:Restriction ; owl:onProperty ex:p ; owl:allValuesFrom ex:C1 .", "ex:colour a owl:ObjectProperty , owl:FunctionalProperty .", "ex:C4 a owl:Class ; owl:disjointWith ex:C0 .",
+                   "ex:p owl:propertyChainAxiom ( ex:q ex:r ) .", "ex:Both a owl:Class ; owl:intersectionOf ( ex:C0 ex:RedThing ) .", "ex:r a owl:TransitiveProperty , owl:SymmetricProperty ."]
+    for j in range(60 if big else 12):
+        chosen = rng.sample(TBOX_AXIOMS, rng.randint(2, len(TBOX_AXIOMS)))
+        og = rdflib.Graph().parse(data=TBOX_TTL % "\n".join(chosen), format="turtle")
+        forms = [("Graph", og)]
+        dso = rdflib.Dataset()
+        for k_, t_ in enumerate(sorted(og)):
+            (dso.default_context if k_ % 3 == 0 else dso.graph(URIRef("urn:o%d" % (k_ % 2)))).add(t_)
+        # (blank-node restrictions must stay in one graph to keep their description together: only use the Dataset form without them)
+        if not any(isinstance(t_[0], BNode) or isinstance(t_[2], BNode) for t_ in og):
+            forms.append(("Dataset", dso))
+        for fname, o_ in forms:
+            target = rdflib.Graph()
+            try:
+                inoculate(target, o_)
+            except Exception as e:
+                diffs.append(({"sg": rdflib.Graph(), "data": rdflib.Graph()}, "mixing a pure axiom ontology (%s) into an empty graph raised %s: %s" % (fname, type(e).__name__, str(e)[:150]), ("ok", True, [], "", None), ("ok", True, [], "", None), sorted(chosen)))
+                continue
+            stats["axiom_mixins"] = stats.get("axiom_mixins", 0) + 1
+            if not _iso(target, og):
+                from rdflib.compare import graph_diff, to_isomorphic
+                _, only_o, only_t = graph_diff(to_isomorphic(og), to_isomorphic(target))
+                diffs.append(({"sg": rdflib.Graph(), "data": rdflib.Graph()}, "the mix-in of an ontology of RDFS/OWL axioms only (%s) into an empty data graph is not that ontology: axioms lost %s; triples invented %s"
+                              % (fname, sorted(" ".join(x.n3() for x in t_) for t_ in only_o)[:6], sorted(" ".join(x.n3() for x in t_) for t_ in only_t)[:6]), ("ok", True, [], "", None), ("ok", True, [], "", None), sorted(chosen)))
     for c, what, o1, o2, quads in diffs[:8]:
         d = S.describe_case(c["sg"], c["data"], {}, o1)
         d["what"] = what
@@ -303,7 +337,7 @@ ex:V2 a sh:NodeShape ; sh:targetSubjectsOf ex:linked ; sh:property [ sh:path ex:
         "evaluations": len(bt) + len(bq) + stats["container_pairs"] + stats["expansion_pairs"] + n,
         "distinct_nontrivial": stats["container_pairs"] + stats["expansion_pairs"],
         "rule": "(1) Tie A: recorded Clone/Mix/Infer/Write traces of Validator.run and RuleExpandRunner.run = generated programs under the content summaries; (2) callees: clone_graph, inoculate_dataset (new/own target, default or named destination), _run_pre_inference (rdfs/owlrl/both, named destination) on Datasets/ConjunctiveGraphs with random distributions (default-only, named-only, mixed, duplicated triples): union of quads after = model (dclone / dwrite); "
-                "(3) the property: random shapes/data x inference {none, rdfs, owlrl, both} x ontology {none, Graph, Dataset} x advanced x abort_on_first: the plain Graph's report = the report of 2 Dataset and 2 ConjunctiveGraph distributions (inplace on/off) and = plain validation of the graph expanded beforehand with inoculate + the same closure; (4) rule sets (TripleRule, SPARQLRule) feeding shapes, through validate(advanced) and shacl_rules(): Dataset / ConjunctiveGraph distributions (caller-built, default_union as rdflib creates them) = plain Graph",
+                "(3) the property: random shapes/data x inference {none, rdfs, owlrl, both} x ontology {none, Graph, Dataset} x advanced x abort_on_first: the plain Graph's report = the report of 2 Dataset and 2 ConjunctiveGraph distributions (inplace on/off) and = plain validation of the graph expanded beforehand with inoculate + the same closure; (5) 'axioms added': an ontology of RDFS/OWL axioms only (named and anonymous restrictions included) mixed into an empty graph is that ontology; (4) rule sets (TripleRule, SPARQLRule) feeding shapes, through validate(advanced) and shacl_rules(): Dataset / ConjunctiveGraph distributions (caller-built, default_union as rdflib creates them) = plain Graph",
         "distribution": dict(stats, tie_a_traces=len(bt), callee_cases=len(bq), model_disagreements=len(failed_t) + len(failed_q), differences=len(diffs), callee_errors=len(bad)),
         "samples": (mq[:1] + mt[:1]) or [{"note": "no cases"}],
         "exhaustive": False,
